@@ -54,10 +54,13 @@ func GetNodePreferableGpuForSharing(fittingGPUsOnNode []string, node *node_info.
 				nodeGpusSharing.Groups = append(nodeGpusSharing.Groups, wholeGpuForSharing.Groups...)
 			}
 		} else {
+			// A group that only nominated (pipelined) tasks have opened so far has no device behind it yet:
+			// joining it can only be a nomination too.
 			nodeGpusSharing.IsReleasing =
 				nodeGpusSharing.IsReleasing ||
 					!node.EnoughIdleResourcesOnGpu(pod.ResReq, gpuIdx) ||
-					!node.IsTaskAllocatable(pod)
+					!node.IsTaskAllocatable(pod) ||
+					node.AllocatedSharedGPUsMemory[gpuIdx] <= 0
 			nodeGpusSharing.Groups = append(nodeGpusSharing.Groups, gpuIdx)
 		}
 
